@@ -106,6 +106,9 @@ def explore(modname, shards, nproc=None, chunk=300, budget_s=600,
     queue.reverse()
     for _, key, _ in shards:
         res.per_shard[key] = 0
+    # workers must agree on str hashing (set iteration order decides the
+    # order of symbolic comparisons, and prefixes travel between workers)
+    os.environ["PYTHONHASHSEED"] = "0"
     ctx = mp.get_context("spawn")
     small = max(20, chunk // 10)
     with ProcessPoolExecutor(max_workers=nproc, mp_context=ctx,
